@@ -7,11 +7,14 @@ import (
 	"fmt"
 	"os"
 	"sort"
+	"sync"
 	"testing"
 
 	enc "github.com/named-data/ndnd/std/encoding"
+	basic "github.com/named-data/ndnd/std/engine/basic"
 	"github.com/named-data/ndnd/std/ndn"
 	spec "github.com/named-data/ndnd/std/ndn/spec_2022"
+	sec "github.com/named-data/ndnd/std/security"
 	"pgregory.net/rapid"
 
 	"verif/harness/internal/evid"
@@ -349,6 +352,7 @@ func execC12(c C12Case) (res evid.Result) {
 	// the packet after decoding and validating (seeded defect C12-r4-1: a validator that
 	// appends the later signed ranges to the first one, i.e. into the received packet)
 	var lastInput func() []byte
+	var firstSig ndn.Signature
 	readers := []readerKind{
 		{"BufferReader(joined)", func() enc.ParseReader {
 			buf := append([]byte(nil), b.joined...)
@@ -376,9 +380,22 @@ func execC12(c C12Case) (res evid.Result) {
 			if !bytes.Equal(d.covered, wantCovered) {
 				return fail("%s on %s returns signed portion %s, the signer signed %s (packet %s)", how, rk.name, shortB(d.covered), shortB(wantCovered), shortB(b.joined))
 			}
+			if firstSig == nil {
+				firstSig = d.sig
+			}
 			// validate exactly what the decoder returned (wire form, as a caller would)
 			if !p.Sig.validate(enc.Wire{d.covered}, d.sig) {
 				return fail("the %s validator rejects the untampered packet decoded by %s on %s (signature type in packet: %d)", p.Sig.Kind, how, rk.name, d.v.sigType)
+			}
+			// ... the signed portion a decoder handed out belongs to the caller: another packet
+			// decoded in the meantime (a store or a cache decodes many before it validates) must
+			// leave it alone (seeded C12-r7-1: parsing contexts recycled through a pool)
+			if d.coveredWire != nil {
+				_ = decode("D", "ReadData", enc.NewBufferReader(otherSignedData()))
+				_ = decode("I", "ReadInterest", enc.NewBufferReader(otherSignedInterest()))
+				if got := d.coveredWire.Join(); !bytes.Equal(got, wantCovered) {
+					return fail("the signed portion returned by %s on %s changed after two other packets were decoded: now %s, the signer signed %s", how, rk.name, shortB(got), shortB(wantCovered))
+				}
 			}
 			// ... and validating the ranges as the decoder returned them (views into the
 			// received bytes) must leave the received bytes alone and give the same verdict twice
@@ -392,6 +409,30 @@ func execC12(c C12Case) (res evid.Result) {
 					}
 				}
 			}
+		}
+	}
+
+	// ---- signature values of every length the signer can produce: an ECDSA signature is a DER
+	// sequence of two integers that drop their leading zero octets, so now and then (one in a
+	// few hundred) a valid value is shorter than usual; the validator must accept them all
+	// (seeded C12-r7-2: a length window in the validator). The same bytes are signed again 48 times.
+	if signed && p.Sig.Kind == "ecdsa" && b.rec != nil {
+		short := 0
+		for k := 0; k < 48; k++ {
+			v, err := b.rec.inner.ComputeSigValue(enc.Wire{wantCovered})
+			if err != nil {
+				break
+			}
+			if len(v) < len(b.rec.value) {
+				short++
+			}
+			sig := sigWithValue{Signature: firstSig, v: v}
+			if firstSig != nil && !p.Sig.validate(enc.Wire{wantCovered}, sig) {
+				return fail("the ecdsa validator rejects a signature value of %d bytes that the shipped signer produced over the packet's signed portion (curve %s)", len(v), p.Sig.Curve)
+			}
+		}
+		if short > 0 {
+			res.Classes = append(res.Classes, "ecdsa-signature-value-shorter-than-the-first")
 		}
 	}
 
@@ -583,3 +624,35 @@ func firstDiffAt(a, b []byte) int {
 	}
 	return i
 }
+
+// sigWithValue is a decoded signature with another signature value.
+type sigWithValue struct {
+	ndn.Signature
+	v []byte
+}
+
+func (s sigWithValue) SigValue() []byte { return s.v }
+
+var (
+	otherOnce      sync.Once
+	otherD, otherI []byte
+)
+
+func otherPackets() {
+	otherOnce.Do(func() {
+		n, _ := enc.NameFromStr("/some/other/packet/decoded/in/between")
+		d, err := spec.Spec{}.MakeData(n, &ndn.DataConfig{}, enc.Wire{bytes.Repeat([]byte{0xab}, 300)}, sec.NewSha256Signer())
+		if err != nil {
+			panic(err)
+		}
+		otherD = d.Wire.Join()
+		i, err := spec.Spec{}.MakeInterest(n, &ndn.InterestConfig{}, enc.Wire{bytes.Repeat([]byte{0xcd}, 300)}, sec.NewSha256IntSigner(basic.NewTimer()))
+		if err != nil {
+			panic(err)
+		}
+		otherI = i.Wire.Join()
+	})
+}
+
+func otherSignedData() []byte     { otherPackets(); return append([]byte(nil), otherD...) }
+func otherSignedInterest() []byte { otherPackets(); return append([]byte(nil), otherI...) }
